@@ -151,6 +151,24 @@ class Provenance:
                                         _ctx_name(ctx) or self.step)
             self.by_link[('made', link)] = _ctx_name(ctx) or self.step
         self.calls = call_log
+        self.raw = list(link_log)
+
+    def overwritten_link_to(self, container, held=()):
+        """Naming only: a cleanup link of `container` - one it held before the step (`held`: link names) or one
+        made in this step by symlink_safe - was afterwards, in the same step, the destination of a rename
+        (fs.replace) that is not symlink_safe's own: returns the code path of that rename."""
+        def key(path):
+            path = str(path)
+            return (os.path.basename(os.path.dirname(path)), os.path.basename(path))
+        mine = {('cleanup', n): 0 for n in held}
+        for i, (kind, _ctx, args) in enumerate(self.raw):
+            if kind == 'symlink_safe' and len(args) > 1 and os.path.basename(str(args[1])) == container:
+                mine[key(args[0])] = i + 1
+        for i, (kind, ctx, args) in enumerate(self.raw):
+            if kind == 'replace' and len(args) > 1 and key(args[1]) in mine and i >= mine[key(args[1])] \
+                    and not os.path.basename(str(args[0])).startswith('.tmp'):
+                return _ctx_name(ctx) or self.step
+        return None
 
     def made(self, path):
         return self.by_link.get(('made', path))
@@ -233,7 +251,7 @@ class Oracle:
                     and event[1] != '.ready' and active):
                 out += self._i5(prev, cur, prov, event[1])
             if sync:
-                out += self._i2(prev, cur, prov)
+                out += self._i2(prev, cur, prov, tombs)
         self._note_taint(cur)
         self.prev = cur
         if out:
@@ -311,10 +329,13 @@ class Oracle:
                 continue
             if len(prev.links_to(target)) != 1:
                 continue
-            if kind == 'monitor':
+            if kind == 'monitor' or tombs:
+                # (tombs at a manager step: the node monitor ran inside the handler, between two of its looks at
+                # the file system)
                 if target in self.node.ended:
                     continue
-                self._count('i4_monitor_step_evaluations')
+                if kind == 'monitor':
+                    self._count('i4_monitor_step_evaluations')
             self._count('i4_unchanged_running_evaluations')
             if cur.running.get(name) == target:
                 continue
@@ -326,7 +347,7 @@ class Oracle:
                     and event[1] == name:
                 ctx = 'stale-deleted-event'
             hits = [t for t in tombs if t[0] == name]
-            if kind == 'monitor' and hits:
+            if (kind == 'monitor' or tombs) and hits:
                 ctx = 'stale-tombstone-%s(%s)' % (
                     're-executed' if max(t[2] for t in hits) > 1
                     else 'first-execution',
@@ -358,8 +379,11 @@ class Oracle:
         return out
 
     # -- I2 ---------------------------------------------------------------
-    def _i2(self, prev, cur, prov):
+    def _i2(self, prev, cur, prov, tombs=()):
         out = []
+        # containers that had ended on their own before the synchronisation and whose tombstone the node monitor
+        # executed while the synchronisation ran: ended containers, to be handed to cleanup, never to run again
+        handed = {t[4] for t in tombs if t[4] is not None and t[4] in self.node.ended}
         terminated = {a for (h, a) in prov.calls if h == '_terminate'}
         configured = {a for (h, a) in prov.calls if h == '_configure'}
 
@@ -403,7 +427,7 @@ class Oracle:
                         'configured) has running link %r after the '
                         'synchronisation [%s]' % (inst, gen, link, how(inst))))
                 continue
-            finished = bool(prev.flags.get(c)) or c in self.tainted
+            finished = bool(prev.flags.get(c)) or c in self.tainted or c in handed
             in_cleanup = any(t == c for t in prev.cleanup.values())
             if not finished and not in_cleanup:
                 self._count('i2_existing_generation_evaluations')
@@ -455,9 +479,14 @@ class Oracle:
             self._count('i2_stale_container_evaluations')
             links = cur.links_to(c)
             if not any(k == 'cleanup' for k, _n in links):
+                state = 'still-running' if links else 'no-link'
+                held = [n for n, t in prev.cleanup.items() if t == c]
+                if not links and prov.overwritten_link_to(c, held):
+                    # it was in cleanup (before, or handed over by this synchronisation) under a link name that a
+                    # rename of the same step then took for another container
+                    state = 'no-link:cleanup-link-overwritten-by:%s' % prov.overwritten_link_to(c, held)
                 out.append((
-                    'sync:stale-container-not-in-cleanup:%s'
-                    % ('still-running' if links else 'no-link'),
+                    'sync:stale-container-not-in-cleanup:%s' % state,
                     'container %s (generation %d of %s) has no cache entry '
                     'of its generation and links %r after the '
                     'synchronisation' % (c, ident[1], ident[0], links)))
